@@ -7,6 +7,7 @@ from vlib import boot
 from vlib.engine import Outcome
 
 PROPERTY = 'C03'
+LEVEL = 'fault_enumeration'
 RULE = ('A bundle (generated payload, CRC types incl. none so that CRCs cannot mask, two extension blocks and a hop-count '
         'block) gets a Block Integrity Block over {payload, an extension block, both} either (A) from a real source '
         'agent with a COSE_Mac0 policy (HMAC-256/384/512) through its real transmit chain, or (B) from the independent '
